@@ -28,7 +28,8 @@ def render(i):
     if p == "fn":
         return f"#[::entrait::entrait(pub T{nd})]\n{m}\n{a}fn f{gen}({deps}x: i32) -> i32 {{ x }}\n"
     if p == "param":
-        return f"#[::entrait::entrait(pub T{nd})]\n{a}fn f{gen}({deps}{m} x: i32) -> i32 {{ 1 }}\n"
+        prm = {"ident": "x: i32", "wild": "_: i32", "destr": "(x, _y): (i32, i32)"}[i.get("pat", "ident")]
+        return f"#[::entrait::entrait(pub T{nd})]\n{a}fn f{gen}({deps}{m} {prm}) -> i32 {{ 1 }}\n"
     if p == "modfn":
         return (f"#[::entrait::entrait(pub T{nd})]\npub mod m {{\n    pub {a}fn keep{gen}({deps}x: i32) -> i32 {{ x }}\n    {m}\n"
                 f"    pub {a}fn f{gen}({deps}x: i32) -> i32 {{ x }}\n}}\n")
@@ -125,7 +126,7 @@ def main():
     ev = {e["case"]: e for e in events}
     chk.cov["evaluations"] = len(events)
     chk.cov["distinct_nontrivial"] = sum(1 for e in events if e["obs"]["expanded"])
-    chk.cov["rule"] = ("attribute kind {doc, lint, enabled cfg, disabled cfg, tool attribute, inert built-in} x placement {fn, parameter, module fn, "
+    chk.cov["rule"] = ("attribute kind {doc, lint, enabled cfg, disabled cfg, tool attribute, inert built-in} x placement {fn, parameter (identifier, `_` and destructuring patterns), module fn, "
                        "impl-block fn, trait method} x sync/async x deps/no_deps (where the combination is legal Rust); all replayed")
     chk.cov["exhaustive"] = True
     vf.report_drift(chk, drift, lambda d: f"in={byid[d['case']]['in']} obs={ev[d['case']]['obs']}")
